@@ -5,6 +5,7 @@ from .core import RuleResult, DISCHARGED, VIOLATED, UNMODELLED
 from .flow import Flow
 from .guards import GuardCtx, as_comparison, NEG, FLIP
 from .ir import atoms_of
+from .chain import Chain
 from .rules_slice import _interval, _subset
 from .rules_state import fkey
 
@@ -43,7 +44,7 @@ def canon(n, subst=None):
         return "%s.%s(%s)" % (canon(obj, subst) if obj is not None else "?", nm, ",".join(canon(a, subst) for a in n.call_args()))
     if k == "CallExpr" and n.callee:
         return "%s(%s)" % (n.callee.get("qn"), ",".join(canon(a, subst) for a in n.call_args()))
-    if k in ("CXXConstructExpr", "CXXFunctionalCastExpr") and len(n.c) == 1:
+    if k in ("CXXConstructExpr", "CXXFunctionalCastExpr", "InitListExpr") and len(n.c) == 1:
         return canon(n.c[0], subst)
     return "?%s#%d" % (k, n.id)
 
@@ -150,6 +151,8 @@ def rule_A1(prog, fixture=False):
     if not sites and not fixture:
         res.broken.append("anchor vanished: no DSPLIB_ASSUME / assert site found")
     counters = {}
+    chain = Chain(prog, literal, _is_internal, canon)
+    chained = 0
     for (f, node, cond, kind) in sorted(sites, key=lambda s: (s[0].file, s[1].line)):
         rel = prog.rel(f.file)
         counters[f.usr] = counters.get(f.usr, 0) + 1
@@ -165,13 +168,29 @@ def rule_A1(prog, fixture=False):
         if all(any(entails(fl, g) for (fl, _) in local) for g in goals):
             res.add(key, DISCHARGED, where, what, "entailed by a live check in the same function", func=f.name, extra=extra)
             continue
+        # (2) interprocedural: up the call chain / back to the constructor (chain.py)
+        if _is_internal(f):
+            subs = [chain.prove(f, node, literal(c, p), [], 0, canon, []) for (c, p) in atoms_of(cond, True)]
+            st = "bad" if any(r[0] == "bad" for r in subs) else ("ok" if all(r[0] == "ok" for r in subs) else "unk")
+            if st == "ok":
+                res.add(key, DISCHARGED, where, what, "entailed along every call chain: " + "; ".join(r[1] for r in subs)[:400], func=f.name,
+                        extra=dict(extra, chain=[r[2] for r in subs]))
+                chained += 1
+                continue
+            if st == "bad":
+                r = [r for r in subs if r[0] == "bad"][0]
+                res.add(key, VIOLATED, where, what, r[1], func=f.name, extra=extra, path=r[2])
+                continue
+            chain_note = "; chain analysis: " + [r for r in subs if r[0] == "unk"][0][1]
+        else:
+            chain_note = ""
         pnames = {p["n"] for p in f.params}
         over_params = all(_only_params(c, pnames) for (c, p) in atoms_of(cond, True))
         if kind == "assert" and not _is_internal(f):
             res.add(key, UNMODELLED, where, what, "assert in a public function: a documented precondition, not an obligation", func=f.name, extra=extra)
             continue
         if not over_params:
-            res.add(key, UNMODELLED, where, what, "condition is not over the function's parameters (object state / locals): class-invariant lemmas are not modelled",
+            res.add(key, UNMODELLED, where, what, "condition is not over the function's parameters (object state / locals)" + chain_note,
                     func=f.name, extra=extra)
             continue
         callers = prog.callers_of(f.usr)
@@ -209,8 +228,10 @@ def rule_A1(prog, fixture=False):
             res.add(key, DISCHARGED, where, what, "entailed by live checks at all %d call site(s)" % len(verdicts), func=f.name, extra=extra)
         else:
             v = [v for v in verdicts if v[0] == "unmodelled"][0]
-            res.add(key, UNMODELLED, where, what, v[2], func=f.name, extra=extra)
+            res.add(key, UNMODELLED, where, what, v[2] + chain_note, func=f.name, extra=extra)
     res.stats["belief_sites"] = len(sites)
+    res.stats["discharged_by_chain"] = chained
+    res.stats["chain_frames"] = chain.frames
     res.stats["assume_sites"] = sum(1 for s in sites if s[3] == "DSPLIB_ASSUME")
     return res
 
